@@ -5,7 +5,7 @@ import desper
 from hypothesis import strategies as st
 
 from vlib.core import PropertyViolation
-from vlib.classes import build_dag, RecBase, npaths
+from vlib.classes import build_dag, RecBase, EqByMode, npaths
 from vlib import worldops
 
 ID = 'C06'
@@ -27,7 +27,7 @@ ASSUMPTIONS = [
 FINDINGS = {}
 
 
-class ProcRoot(desper.Processor):
+class ProcRoot(EqByMode, desper.Processor):
     def process(self, dt=1):
         pass
 
